@@ -92,7 +92,7 @@ def normalise(path):
     return events, dropped, len(raw)
 
 
-def compress(events, max_ids=80):
+def compress(events, max_ids=40):
     """drop the creation of objects that no later event refers to (coefficient variables, operands
     of term builders, ...), renumber the remaining ids densely, and cut the trace before the id
     pool would exceed `max_ids` (trace validation cost grows with the pool size)"""
@@ -132,22 +132,76 @@ def compress(events, max_ids=80):
             ntemp += 1
             continue
         out.append(e)
-    ren = {}
+    return recycle(out, max_ids), ntemp
 
-    def rn(x):
-        if x not in ren:
-            ren[x] = len(ren) + 1
-        return ren[x]
-    final = []
-    for e in out:
-        e = dict(e)
-        for k in ("v", "w", "r", "b"):
+
+def recycle(events, max_ids):
+    """give every object (variable or BC object) a slot of a bounded pool for as long as the trace still
+    refers to it: after the last reference a `Drop' (variable; its BC object goes with its last user) or
+    `DropBC' (BC object without users) event is inserted and the slot is reused - the specification's Drop
+    action.  A variable is kept until the last reference to its BC object, so that the object stays alive
+    for later users.  The trace is cut where more than `max_ids` objects would be live at once."""
+    VKEYS, BKEY = ("v", "w", "r"), "b"
+    last = {}
+    for i, e in enumerate(events):
+        for k in VKEYS + (BKEY,):
             if isinstance(e.get(k), int):
-                e[k] = rn(e[k])
-        if len(ren) > max_ids:
+                last[e[k]] = i
+    bc_of, users = {}, {}
+
+    def bind(v, b):
+        bc_of[v] = b
+        users.setdefault(b, set()).add(v)
+    slot, free, nxt = {}, [], [1]
+
+    def alloc(x):
+        if x not in slot:
+            if free:
+                slot[x] = free.pop(0)
+            else:
+                slot[x] = nxt[0]
+                nxt[0] += 1
+        return slot[x]
+    out = []
+    live_vars, live_bcs = set(), set()
+    for i, e in enumerate(events):
+        ev = e["ev"]
+        if ev == "NewVar":
+            bind(e["v"], e["b"])
+        elif ev == "Copy":
+            bind(e["w"], e["b"])
+        elif ev == "SolveMatrix":
+            bind(e["r"], e["b"])
+        elif ev == "SolveExplicit" and e["v"] in bc_of:
+            bind(e["r"], bc_of[e["v"]])
+        ne = dict(e)
+        for k in VKEYS:
+            if isinstance(e.get(k), int):
+                ne[k] = alloc(e[k])
+                live_vars.add(e[k])
+        if isinstance(e.get(BKEY), int):
+            ne[BKEY] = alloc(e[BKEY])
+            live_bcs.add(e[BKEY])
+        if nxt[0] - 1 > max_ids:
             break
-        final.append(e)
-    return final, ntemp
+        out.append(ne)
+        # objects whose last reference has passed
+        for v in sorted(x for x in live_vars if max(last[x], last.get(bc_of.get(x), -1)) <= i):
+            b = bc_of.get(v)
+            out.append({"ev": "Drop", "v": slot[v]})
+            live_vars.discard(v)
+            free.append(slot.pop(v))
+            if b is not None:
+                users[b].discard(v)
+                if not users[b] and b in slot:       # the spec's Drop frees the BC object with its last user
+                    live_bcs.discard(b)
+                    free.append(slot.pop(b))
+        for b in sorted(x for x in live_bcs if last[x] <= i and not users.get(x)):
+            out.append({"ev": "DropBC", "b": slot[b]})
+            live_bcs.discard(b)
+            free.append(slot.pop(b))
+        free.sort()
+    return out
 
 
 def max_id(events):
